@@ -250,3 +250,33 @@ def follow_request(view: str, e: Entry, query: typing.Optional[bytes] = None) ->
         return reqs.render(v, e.selector, query)
     raw = e.raw if isinstance(e.raw, bytes) else e.raw.encode("utf-8", "surrogateescape")
     return reqs.render(view if fam != "wap" else "http", raw, query, prequoted=True)
+
+
+def entries_if_menu(view: str, resp, verdict) -> typing.Optional[typing.List[Entry]]:
+    """Entries of a reply that is, or may be (ZIP handler: class 'any'), a menu; None if it is not one."""
+    fam = reqs.VIEWS[view][0]
+    v = verdict
+    if v.klass == "any":
+        try:
+            if fam == "gopher":
+                v.parsed = parsers.parse_gopher_menu(resp.data, allow_empty=False)
+            elif fam == "gopherp":
+                if view.endswith("$"):
+                    v.parsed["items"] = parsers.parse_gopherplus_items(v.parsed["body"])
+                else:
+                    v.parsed["menu"] = parsers.parse_gopher_menu(v.parsed["body"], allow_empty=False)
+            elif fam in ("http", "wap"):
+                ct = dict(v.parsed["headers"]).get("content-type")
+                if ct not in (b"text/html", b"text/vnd.wap.wml"):
+                    return None
+            elif fam in ("gemini", "spartan"):
+                if v.parsed["meta"] != b"text/gemini":
+                    return None
+        except parsers.Malformed:
+            return None
+    elif v.klass not in ("menu", "info"):
+        return None
+    try:
+        return entries_of(view, v)
+    except Exception:
+        return None if v.klass == "any" else (_ for _ in ()).throw(parsers.Malformed("listing unreadable"))
